@@ -230,11 +230,25 @@ func check(in Input) *fail {
 			if ex.errAt >= 0 {
 				if len(errs) == 0 {
 					f = &fail{"invalid-member-accepted", fmt.Sprintf("error at member %d", ex.errAt), "no error from Process"}
+					return
+				}
+				// the verdict on a type does not wear off: asked again (a second Process, or
+				// GetModule, which processes), the same list must still be rejected
+				if errs2 := ms.Process(); len(errs2) == 0 {
+					f = &fail{"invalid-member-accepted@second-process", fmt.Sprintf("error at member %d, as in the first run", ex.errAt), "no error from the second Process"}
+					return
+				}
+				if _, errs3 := ms.GetModule("m"); len(errs3) == 0 {
+					f = &fail{"invalid-member-accepted@second-process", fmt.Sprintf("error at member %d, as in the first run", ex.errAt), "no error from GetModule after Process"}
 				}
 				return
 			}
 			if len(errs) > 0 {
 				f = &fail{"valid-member-rejected", "no error", fmt.Sprint(errs)}
+				return
+			}
+			if errs2 := ms.Process(); len(errs2) > 0 {
+				f = &fail{"valid-member-rejected@second-process", "no error", fmt.Sprint(errs2)}
 				return
 			}
 			l := yang.ToEntry(ms.Modules["m"]).Dir["l"]
